@@ -172,7 +172,10 @@ export function runHistory(ctx, c, res) {
         const a = firedHandlers(ge, live.comp, live.tr)
         const b = firedHandlers(ge, f2.comp, f2.tr)
         report.count('events_fired', a.n)
-        if (a.text !== b.text) {
+        // (the host's own child order may differ from a fresh creation where dynamic-slot content is involved, with every
+        //  slot holding the right content - section 8: the entries are compared as a multiset, each with its handlers in order)
+        a.list.sort(); b.list.sort()
+        if (a.list.join('\n') !== b.list.join('\n')) {
           let k = 0
           while (k < a.list.length && a.list[k] === b.list[k]) k++
           viol(`after the history the listeners attached to an element differ from a fresh creation: ${a.list[k]} vs ${b.list[k]}`.slice(0, 500), { step: i, updated: a.list.slice(Math.max(0, k - 2), k + 3), fresh: b.list.slice(Math.max(0, k - 2), k + 3) })
